@@ -54,6 +54,30 @@ def run(ctx):
 def r1_field_reads(ctx):
     exp = ctx.prog.cls(EXP)
     n = 0
+    # the exporter keeps no state while it exports: the text of a cell cannot depend on the cells exported before it
+    n_state = 0
+    for name, f in exp.methods.items():
+        if f.kind != 'method' or not f.params or name == '__init__':
+            continue
+        me = f.params[0]
+        for a in walk_local(f.node):
+            w = None
+            if isinstance(a, ast.Attribute) and isinstance(a.ctx, (ast.Store, ast.Del)) and F.is_name(a.value, me):
+                w = a
+            elif isinstance(a, ast.Subscript) and isinstance(a.ctx, (ast.Store, ast.Del)) and isinstance(a.value, ast.Attribute) \
+                    and F.is_name(a.value.value, me):
+                w = a
+            elif isinstance(a, ast.Call) and isinstance(a.func, ast.Attribute) and isinstance(a.func.value, ast.Attribute) \
+                    and F.is_name(a.func.value.value, me) and a.func.attr in ('append', 'extend', 'insert', 'pop', 'remove', 'clear', 'update',
+                                                                             'setdefault', 'add', 'discard', 'popitem', 'sort', 'reverse'):
+                w = a
+            if w is not None:
+                n_state += 1
+                ctx.violation('R1', f'{f.module.relpath}:{w.lineno}', f.qualname, f'exporter-state:{name}',
+                              f'`{src(w)[:70]}` keeps state in the exporter while it exports: what is written for a cell now depends on which '
+                              f'cells were exported before it (and on what was hidden by the options), not only on the document and the options')
+    if not n_state:
+        ctx.holds('R1', exp.loc, exp.qualname, 'no method of the Exporter writes to the exporter object (cells are exported independently)')
     for name, f in exp.methods.items():
         opt = None
         for p in f.all_params:
@@ -61,6 +85,8 @@ def r1_field_reads(ctx):
                 opt = p
         if opt is None:
             continue
+        if ctx.prog.is_glue(f):
+            continue        # an extracted helper: its reads are attributed to the methods it was inlined into
         reads, writes = set(), []
         for a in walk_local(f.node):
             if isinstance(a, ast.Attribute) and F.is_name(a.value, opt):
